@@ -46,15 +46,22 @@ def run(rep, tier, rng):
         # all histories up to length 2, a third of length 3 (rotating with the seed), the random long ones
         hists = [h for i, h in enumerate(hists) if len(h) != 3 or i % 3 == rng.randint(0, 2)]
     cases, meta = [], []
+    # a fifth file whose index lists the records in another order than they are stored (the second listed record lies
+    # before the first one in the file, the third after both)
+    import C14
+    models.append(mk([1, 2, 3]))
     for mi, m in enumerate(models):
         shp, shx = refesri.encode_shp(m), refesri.encode_shx(m)
+        if mi == 4:
+            shp, entries = C14.build_layout(rng, m, (1, 0, 2), [0, 0, 0, 0], lambda k: bytes(k))
+            shx = refesri.encode_shx(m, entries=entries)
         items = [("ok", refesri.denote(r["shape"])) for r in m["records"]]
         for h in hists:
             # every history ends with an iteration or, every fourth one, with the bulk read (read / read_as), observed too
             ops = h + ([("readall",)] if (len(cases) % 4 == 3) else [("it", -1)])
             typed = not (len(h) % 2 or (mi == 2 and len(cases) % 3)) or (mi == 3 and len(cases) % 3 != 1)
             cases.append(C.read_case(8 if typed else -1, shp, shx, ops))
-            if typed and mi >= 2:
+            if typed and mi in (2, 3):
                 # the typed reader on the record of another type: a mismatch error item, then the iteration goes on
                 meta.append(([items[0], ("err", 8, 8, m["records"][1]["shape"]["code"]), items[2]], ops, mi))
                 continue
@@ -62,7 +69,7 @@ def run(rep, tier, rng):
     rep.cov["rule"] = ("exhaustive histories over {iterate 0/1/2/all items, random access at 0..n, seek 0..n, shape count} up to "
                        "length %d (quick: all of length <= 2, a rotating third of length 3) plus %d longer random ones, each "
                        "followed by a full iteration, on a file of n = 3 records of pairwise different sizes, on one of equal "
-                       "sizes, on one with a null-shape record in the middle and on one with a record of another type in the middle (typed reads "
+                       "sizes, on one with a null-shape record in the middle, on one whose index order differs from the file order and on one with a record of another type in the middle (typed reads "
                        "answer it with an error and go on), iterator adaptors skip/take included, with index, generic and typed reader alternating; oracle: abstract reader (records, next position); "
                        "non-trivial = distinct case" % (L, extra))
     rep.cov["exhaustive"] = tier == "thorough"
@@ -75,7 +82,7 @@ def run(rep, tier, rng):
             nfail += 1
             if nfail == 1:
                 rep.violation({"kind": "oracle", "what": msg, "case_kind": "read", "case": c, "ops": ops,
-                               "file": ["different sizes", "equal sizes", "null record in the middle", "record of another type in the middle"][mi]})
+                               "file": ["different sizes", "equal sizes", "null record in the middle", "record of another type in the middle", "index order differs from file order"][mi]})
     # ---- the complete Reader (shape + attribute row pairs): after a seek or a partial iteration the bulk read
     # `Reader::read` starts where the reader stands, for shapes and rows alike
     import C08
